@@ -148,9 +148,18 @@ template <class PT> void structured(vf::Ctx& c, const char* tname, int si, int o
     for (auto& q : queries) for (int d = 0; d < DIM; ++d) q[d] = (typename PT::Scalar)((double)q[d] + O[d]);
   }
   KdTree<PT> tree(pts);
+  // a second tree of the same point type on another set, asked the bit-identical query right after the first one (state shared between trees)
+  PointSet<PT> ptsB; for (size_t i = 0; i < pts.size(); i += 2) { PT p = pts[i]; p[0] = (typename PT::Scalar)((double)p[0] + 0.375); ptsB.push_back(p); }
+  KdTree<PT> treeB(ptsB);
   size_t kmax = std::min<size_t>(pts.size(), 50);
   std::string what = std::string(s.name) + (off ? " (translated far from the origin)" : "");
-  for (auto& q : queries) { if (!check_query<PT>(c, tree, pts, q, kmax, what, tname)) break; }
+  for (auto& q : queries) {
+    if (!check_query<PT>(c, tree, pts, q, kmax, what, tname)) break;
+    size_t ia = 0, ib = 0; typename PT::Scalar da = -1, db = -1; tree.findNearestNeighbor(q, ia, da); treeB.findNearestNeighbor(q, ib, db);
+    typename PT::Scalar best = std::numeric_limits<typename PT::Scalar>::max(); for (auto& p : ptsB) { typename PT::Scalar d = 0; for (int k = 0; k < PointTraits<PT>::SIZE; ++k) { typename PT::Scalar e = q[k] - p[k]; d += e * e; } best = std::min(best, d); }
+    c.eval();
+    if (!(ib < ptsB.size()) || std::fabs(db - best) > 4 * std::numeric_limits<typename PT::Scalar>::epsilon() * best + std::numeric_limits<typename PT::Scalar>::min()) { c.violation("KdTree.findNearestNeighbor.dependsOnOtherTrees", vf::JO().str("type", tname).str("set", what).raw("query", pj(q)).done(), vf::JO().u("index", ib).num("distance", db).num("minimal_in_second_set", best).done()); break; }
+  }
   if (c.want_sample()) c.sample(vf::JO().str("type", tname).str("explorer", "structured").str("set", s.name).u("points", pts.size()).u("queries", queries.size()).done());
 }
 
@@ -194,7 +203,7 @@ std::string vf_describe(const std::string& tier) {
   o.strs("structured_sets", names);
   o.str("structured_sets_translated", "every structured set a second time translated by (706000, 5073000, 300) for double types and (1000, -2000, 50) for float types (all coordinates remain exactly representable)");
   o.str("structured_queries", "lattice points (strided), half steps, +-1e6 along one / all axes, 2 units outside each side of the bounding box; every k in 1..min(n,50); leaf size 10");
-  o.str("oracle", "brute force in the same scalar type: reported distances equal the k smallest (ascending, 4 eps relative), each matches its indexed point, indexes in range and distinct; after the ascending pass over k the same queries in descending order and the single query again, bit-equal to the first answers");
+  o.str("oracle", "brute force in the same scalar type: reported distances equal the k smallest (ascending, 4 eps relative), each matches its indexed point, indexes in range and distinct; after the ascending pass over k the same queries in descending order and the single query again, bit-equal to the first answers; a second tree of the same type on a shifted half of the set is asked the bit-identical single query right after the first tree");
   return o.done();
 }
 
